@@ -93,8 +93,11 @@ Interleavings(ss) ==
     IF \A i \in 1..Len(ss) : ss[i] = <<>> THEN { <<>> }
     ELSE UNION { { <<ss[i][1]>> \o rest : rest \in Interleavings([ss EXCEPT ![i] = Tail(ss[i])]) } : i \in { j \in 1..Len(ss) : ss[j] # <<>> } }
 
-ScnB(picks, inter, role, cfg) ==
-    [part |-> "B", role |-> role, cfg |-> cfg, scripts |-> picks, steps |-> inter \o Probe(role)]
+\* batch: everything the peer does arrives before the endpoint runs once (several streams pending in the same pass)
+NoRun(st) == [x \in DOMAIN st \cup {"no_run"} |-> IF x = "no_run" THEN TRUE ELSE st[x]]
+ScnB(picks, inter, role, cfg, batch) ==
+    [part |-> "B", role |-> role, cfg |-> cfg, scripts |-> picks, batch |-> batch,
+     steps |-> (IF batch /\ Len(inter) > 1 THEN [i \in 1..Len(inter) |-> IF i < Len(inter) THEN NoRun(inter[i]) ELSE inter[i]] ELSE inter) \o Probe(role)]
 
 VARIABLES seq, out
 Init == seq = <<>> /\ out = <<>>
@@ -107,7 +110,11 @@ FinishB == /\ out = <<>> /\ seq = <<>>
            /\ \E picks \in [1..K -> 1..Len(Scripts)], role \in {"server", "client"},
                  cfg \in { c \in Cfgs : c.write = "all" /\ c.uni_credit = 100 } :
                  LET tagged == [k \in 1..K |-> [i \in 1..Len(Scripts[picks[k]]) |-> WithSid(Scripts[picks[k]][i], Sid(role, k))]]
-                 IN \E inter \in Interleavings(tagged) : out' = ScnB(picks, inter, role, cfg)
+                 \* batched arrival only where the outcome cannot depend on the order in which simultaneously pending streams are
+                 \* examined: one of the streams is closed or reset before its type is known (scripts 13..16, never an error itself)
+                 IN \E inter \in Interleavings(tagged), batch \in BOOLEAN :
+                       /\ (batch => \E k \in 1..K : picks[k] \in 13..16)
+                       /\ out' = ScnB(picks, inter, role, cfg, batch)
            /\ UNCHANGED seq
 SeqsC == UNION {[1..n -> LettersC] : n \in 1..MC}
 FinishC == /\ out = <<>> /\ seq = <<>>
